@@ -16,6 +16,16 @@ with NumPy: M = M^T, off-diagonal zeros, triangular zeros, x^T M x >= 0 on probe
 M^T M = I = M M^T and matrix(op.I) = matrix(op.T) = M^-1, traced structure of mv = in_structure;
 the instance-level predicates `lx.is_*(op)` must equal the class row.
 
+Scope (maintainer round): (a) SymmetricBandToeplitzOperator is swept over every signal length n = 1..24 x every
+band count K = 1..n+2 x every evaluation method (dense, direct, fft, overlap_save with the default and with
+explicit fft sizes down to the minimal one), the matrix being read off `jit(vmap(mv))(I)`; the other tagged
+classes get a range of sizes too.  (b) `derived` cases obtain the tagged operators through the PUBLIC
+CONSTRUCTION PATHS: an expression (s * A, A * s, A / s, -A, A - B, .T, .I, A @ B, .reduce(), HWPOperator.create)
+over base cases, with every scalar form (Python int/float/bool, NumPy generic / 0-d, JAX 0-d; size-1 and longer
+arrays of rank 1-3 and lists, which are not scalars); EVERY tagged operator found in what comes out (the result
+and, recursively, its operands) is observed and judged exactly like a directly constructed one, and the one the
+case names is compared with the model (o_scale: scalar check + HomothetyOperator with the factor's shape).
+
 Floating point: all parameters are small integers or dyadic rationals and x64 is enabled, so every
 matrix is compared exactly; the only rounding is cos/sin of the rotation angles (k*pi/4 or
 atan2(S, C)/2 of a Pythagorean pair) and `jnp.linalg.inv` in AbstractLazyInverseOperator.as_matrix:
@@ -155,7 +165,8 @@ def build0(case, m):
         band = jnp.asarray(np.array([float(fr(v)) for v in case['band']]).reshape(case['bshape']))
         jax = m['jax']
         return m['toep'].SymmetricBandToeplitzOperator(
-            band, jax.ShapeDtypeStruct(tuple(case['xshape']), jnp.float64), method=case.get('method', 'dense'))
+            band, jax.ShapeDtypeStruct(tuple(case['xshape']), jnp.float64), method=case.get('method', 'dense'),
+            fft_size=case.get('fft_size'))
     if k in ('qurot', 'qurotT', 'lazy_qurot'):
         ang = jnp.asarray(np.array([angle_of(cs) for cs in case['cs']]).reshape(case['ashape']))
         op = m['qu'].QURotationOperator(ang, stokes_struct(case['stokes'], case['shape'], m))
@@ -182,7 +193,10 @@ def build0(case, m):
         blk = jnp.asarray(np.array(case['block'], dtype=np.float64))
         return m['dense'].DenseBlockDiagonalOperator(blk, struct_of([[blk.shape[1]]], m), 'ij,j->i')
     if k == 'index':
-        return m['indices'].IndexOperator(jnp.asarray(case['idx']), in_structure=struct_of([case['shape']], m))
+        return m['indices'].IndexOperator(jnp.asarray(case['idx']), in_structure=struct_of(case.get('shapes') or [case['shape']], m))
+    if k == 'hwp_create':
+        ang = jnp.asarray(np.array([angle_of(cs) for cs in case['cs']]).reshape(case['ashape']))
+        return m['hwp'].HWPOperator.create(tuple(case['shape']), np.float64, case['stokes'], angles=ang)
     if k == 'ravel':
         return m['axes'].RavelOperator(in_structure=struct_of([case['shape']], m))
     if k == 'reshape':
@@ -209,6 +223,115 @@ def build0(case, m):
     if k == 'toy':
         return toy_classes(m)[case['decorator']](jnp.asarray(np.array(case['matrix'], dtype=np.float64)))
     raise ValueError(f'unknown case class {k}')
+
+
+# ----------------------------------------------------------------------------------------------
+# public construction paths: expressions over base cases
+
+SCALAR_FORMS = ['py_int', 'py_float', 'py_bool', 'np_f64', 'np_i32', 'np0d', 'jax0d', 'jax0d_f32']  # 0-d: scalars
+ARRAY_FORMS = {  # not scalars: shape of jnp.asarray(factor)
+    'jax1': [1], 'jax11': [1, 1], 'jax111': [1, 1, 1], 'list1': [1], 'list11': [1, 1], 'jax2': [2], 'jax12': [1, 2],
+    'np1': [1], 'np11': [1, 1], 'np2': [2],  # (NumPy arrays only as divisors: ndarray * A never reaches furax)
+}
+
+
+def scalar_of(spec, m):
+    jnp, np = m['jnp'], m['np']
+    v = Fraction(spec['v'])
+    f = spec['form']
+    if f == 'py_int':
+        assert v.denominator == 1
+        return int(v)
+    if f == 'py_bool':
+        assert v == 1
+        return True
+    x = float(v)
+    if f == 'py_float':
+        return x
+    if f == 'np_f64':
+        return np.float64(x)
+    if f == 'np_i32':
+        assert v.denominator == 1
+        return np.int32(int(v))
+    if f == 'np0d':
+        return np.array(x)
+    if f == 'jax0d':
+        return jnp.asarray(x)
+    if f == 'jax0d_f32':
+        return jnp.asarray(x, dtype=jnp.float32)
+    shape = ARRAY_FORMS[f]
+    n = math.prod(shape)
+    vals = np.array([x * (i + 1) for i in range(n)]).reshape(shape)
+    if f.startswith('jax'):
+        return jnp.asarray(vals)
+    if f.startswith('list'):
+        return vals.tolist()
+    return vals
+
+
+def scalar_shape(spec):
+    return ARRAY_FORMS.get(spec['form'], [])
+
+
+def build_expr(e, m):
+    k = e['op']
+    if k == 'case':
+        return build(e['case'], m)
+    if k in ('rmul', 'mul', 'div'):
+        a, sc = build_expr(e['a'], m), scalar_of(e['s'], m)
+        return sc * a if k == 'rmul' else a * sc if k == 'mul' else a / sc
+    if k in ('neg', 'pos', 'T', 'I', 'reduce'):
+        a = build_expr(e['a'], m)
+        return -a if k == 'neg' else +a if k == 'pos' else a.T if k == 'T' else a.I if k == 'I' else a.reduce()
+    if k in ('matmul', 'add', 'sub'):
+        a, b = build_expr(e['a'], m), build_expr(e['b'], m)
+        return a @ b if k == 'matmul' else a + b if k == 'add' else a - b
+    if k == 'block_diag':
+        return m['blocks'].BlockDiagonalOperator([build_expr(x, m) for x in e['parts']])
+    raise ValueError(f'unknown expression {k}')
+
+
+def expr_str(e):
+    k = e['op']
+    if k == 'case':
+        return e['case']['cls']
+    if k in ('rmul', 'mul', 'div'):
+        sc = f"{e['s']['form']}({e['s']['v']})"
+        a = expr_str(e['a'])
+        return f'{sc} * {a}' if k == 'rmul' else f'{a} * {sc}' if k == 'mul' else f'{a} / {sc}'
+    if k in ('neg', 'pos'):
+        return ('-' if k == 'neg' else '+') + expr_str(e['a'])
+    if k in ('T', 'I'):
+        return f"{expr_str(e['a'])}.{k}"
+    if k == 'reduce':
+        return f"({expr_str(e['a'])}).reduce()"
+    if k == 'block_diag':
+        return 'BlockDiag[' + ', '.join(expr_str(x) for x in e['parts']) + ']'
+    return f"({expr_str(e['a'])} {dict(matmul='@', add='+', sub='-')[k]} {expr_str(e['b'])})"
+
+
+def nodes_of(op, m):
+    """The operator and, recursively, every operator stored in its fields (operands, wrapped operator, blocks)."""
+    import dataclasses
+
+    jax, lx = m['jax'], m['lx']
+    out, seen = [], set()
+
+    def rec(o):
+        if id(o) in seen:
+            return
+        seen.add(id(o))
+        out.append(o)
+        if not dataclasses.is_dataclass(o):
+            return
+        for f in dataclasses.fields(o):
+            v = getattr(o, f.name, None)
+            for leaf in jax.tree.leaves(v, is_leaf=lambda x: isinstance(x, lx.AbstractLinearOperator)):
+                if isinstance(leaf, lx.AbstractLinearOperator):
+                    rec(leaf)
+
+    rec(op)
+    return out
 
 
 TOYS = {  # decorator -> a matrix with exactly the property the decorator's name declares
@@ -280,6 +403,15 @@ def columns(op, m):
     return np.stack(cols, axis=1)
 
 
+def columns_vmap(op, m):
+    """The same matrix for an operator over ONE 1-d leaf, from a single jitted call: row j of
+    vmap(mv)(I) is mv(e_j), i.e. column j."""
+    jax, jnp, np = m['jax'], m['jnp'], m['np']
+    st = op.in_structure()
+    Y = jax.jit(jax.vmap(op.mv))(jnp.eye(st.shape[0], dtype=st.dtype))
+    return np.asarray(Y, dtype=np.float64).reshape(st.shape[0], -1).T
+
+
 def exact(a):
     """Matrix of floats -> rows of exact values (ints / 'n/d' strings after lib.canon)."""
     return [[Fraction(float(v)) for v in row] for row in a.tolist()]
@@ -294,11 +426,37 @@ def attempt(f):
 
 def observe(case):
     m = fx()
-    jax, np, lx, ttags = m['jax'], m['np'], m['lx'], m['ttags']
+    if case['cls'] == 'derived':
+        return observe_derived(case, m)
     try:
         op = build(case, m)
     except Exception as e:  # noqa: BLE001
         return {'ctor': type(e).__name__}
+    return observe_op(op, case, m)
+
+
+def observe_derived(case, m):
+    """What an expression over base cases returns: the result (lightly) and every TAGGED operator in it."""
+    lx, ttags = m['lx'], m['ttags']
+    try:
+        op = build_expr(case['expr'], m)
+    except Exception as e:  # noqa: BLE001
+        return {'ctor': type(e).__name__}
+    if not isinstance(op, lx.AbstractLinearOperator):
+        return {'ctor': 'not-an-operator:' + type(op).__name__}
+    obs = {'ctor': 'ok', 'class': type(op).__name__}
+    light = dict(case)
+    light['nomatrix'] = True
+    obs['result'] = observe_op(op, light, m)
+    obs['nodes'] = []
+    for node in nodes_of(op, m):
+        if any(ttags.class_row(type(node))):
+            obs['nodes'].append(observe_op(node, {'cls': 'node', 'with_inverse': False}, m))
+    return obs
+
+
+def observe_op(op, case, m):
+    jax, np, lx, ttags = m['jax'], m['np'], m['lx'], m['ttags']
     cls = type(op)
     obs = {'ctor': 'ok', 'class': cls.__name__}
     obs['row'] = ttags.class_row(cls)
@@ -310,15 +468,18 @@ def observe(case):
     obs['T_is_self'] = T is op
     if case.get('boundary') or case.get('nomatrix') or isinstance(obs['out_traced'], dict):
         return obs  # (when mv cannot even be traced on in_structure there is no matrix to look at)
-    M = attempt(lambda: columns(op, m))
+    M = attempt(lambda: columns_vmap(op, m) if case.get('sweep') else columns(op, m))
     if isinstance(M, dict):
         obs['matrix_error'] = M
         return obs
     obs['matrix'] = exact(M)
     # as_matrix() is looked at when the class overrides it (the generic one is the same column
     # construction as `columns`, property C04)
-    if cls.as_matrix is not m['core'].AbstractLinearOperator.as_matrix:
-        A = attempt(lambda: np.asarray(op.as_matrix(), dtype=np.float64))
+    if case.get('no_as_matrix'):
+        obs['as_matrix'] = {'skipped': True}  # (method-independent: looked at once per parameter set)
+    elif cls.as_matrix is not m['core'].AbstractLinearOperator.as_matrix:
+        # (sweep: traced once under jit instead of one XLA program per scatter of the dense construction)
+        A = attempt(lambda: np.asarray(jax.jit(lambda: op.as_matrix())() if case.get('sweep') else op.as_matrix(), dtype=np.float64))
         obs['as_matrix'] = A if isinstance(A, dict) else exact(A)
     else:
         obs['as_matrix'] = {'generic': True}
@@ -555,9 +716,218 @@ class Check(PropertyCheck):
         # the decorators themselves, each on a toy dense operator that has the declared property only
         for name, mat in TOYS.items():
             cs.append({'cls': 'toy', 'decorator': name, 'matrix': mat, 'with_inverse': name == 'orthogonal'})
+        cs += self._toeplitz_sweep(quick)
+        cs += self._size_sweeps(quick)
+        cs += self._derived_cases(quick)
         for c in cs:
             c.setdefault('kind', c['cls'] + ('-malformed' if c.get('malformed') else '-boundary' if c.get('boundary') else ''))
         self.exhaustive = False
+        return cs
+
+    # ---- (a) every evaluation method of the Toeplitz operator over a range of sizes ----
+    @staticmethod
+    def _fft_sizes(K):
+        bn = 2 * K - 1
+        default = int(2 ** (1 + math.ceil(math.log2(bn))))  # _get_default_fft_size (only used to avoid duplicates)
+        cands = [bn, bn + 1, bn + 2, bn + 4, default // 2, 2 * default, default + 3]
+        out = []
+        for f in cands:
+            if f >= bn and f != default and f not in out:
+                out.append(f)
+        return out
+
+    def _toeplitz_sweep(self, quick):
+        nz = ['1', '1/2', '-1/4', '2', '3', '-1', '1/8', '-2', '3/2', '-1/2', '4', '1/4']  # no zero: nothing hides
+        cs = []
+        for n in range(1, 25):
+            for K in range(1, n + 3):
+                band = [nz[(5 * i + n + K) % len(nz)] for i in range(K)]
+                sizes = self._fft_sizes(K)
+                if quick:
+                    # XLA compiles one program per case (0.1-0.5 s): the quick tier takes, for EVERY (n, K), the default
+                    # method with the default fft size and with one explicit size (rotating through the candidates), and
+                    # one of dense / direct / fft (rotating); the thorough tier takes the full product
+                    sizes = [sizes[(n + 3 * K) % len(sizes)]]
+                    first = ('dense', 'direct', 'fft')[(n + K) % 3]
+                    if first == 'dense' and K > 9 and (n + K) % 9:
+                        first = 'direct'  # (tracing dense + as_matrix() costs ~0.1 s per band: most wide bands in thorough)
+                    runs = [(first, None)]
+                else:
+                    runs = [('dense', None), ('direct', None), ('fft', None)]
+                runs += [('overlap_save', None)] + [('overlap_save', f) for f in sizes]
+                for method, f in runs:
+                    c = {'cls': 'toeplitz', 'xshape': [n], 'bshape': [K], 'band': band, 'method': method, 'sweep': True,
+                         'kind': 'toeplitz-sweep-' + method + ('-fft_size' if f else '')}
+                    if f:
+                        c['fft_size'] = f
+                    if method in ('fft', 'overlap_save'):
+                        c['fft'] = True
+                    if method != 'dense':
+                        c['no_as_matrix'] = True  # as_matrix() (method-independent, expensive to trace): next to `dense` only
+                    cs.append(c)
+        return cs
+
+    # ---- (a) a range of sizes for the other tagged classes ----
+    def _size_sweeps(self, quick):
+        cs = []
+        pool = ['2', '-1', '1/2', '-2', '-1/4', '4', '1', '0', '8', '-1/2']  # (+- powers of two: 1/d is exact)
+        for n in ([6, 9, 16] if quick else [5, 6, 7, 9, 12, 16, 24]):
+            cs.append({'cls': 'identity', 'shapes': [[n]]})
+            cs.append({'cls': 'homothety', 'k': pool[n % 7], 'shapes': [[n]]})
+        for n in (range(4, 13) if quick else range(4, 25)):
+            vals = [pool[(3 * i + n) % len(pool)] for i in range(n)]
+            for k in ('diagonal', 'diagonal_inverse'):
+                cs.append({'cls': k, 'values': vals, 'dshape': [n], 'axis': -1 if n % 2 else 0, 'shapes': [[n]]})
+        axis_pts = [['1', '0'], ['0', '1'], ['-1', '0'], ['0', '-1']]
+        pyth = [['3/5', '4/5'], ['-4/5', '3/5'], ['5/13', '-12/13'], ['-3/5', '-4/5'], ['12/13', '5/13']]
+        for kind in STOKES:
+            for n in ([5, 8] if quick else [5, 6, 7, 8, 12]):
+                cs.append({'cls': 'hwp', 'stokes': kind, 'shape': [n]})
+                pts = [(axis_pts + pyth)[(2 * i + n + len(kind)) % 9] for i in range(n)]
+                for k in ('qurot', 'qurotT'):
+                    cs.append({'cls': k, 'stokes': kind, 'shape': [n], 'ashape': [n], 'cs': pts, 'trig': True})
+        for r in ([5, 8] if quick else [4, 5, 6, 8, 12]):
+            cs.append({'cls': 'obs_matrix', 'r': r, 'c': r, 'rows': [((i * 7 + 3) % 11) - 5 for i in range(r * r)]})
+        cs.append({'cls': 'moveaxis', 'shape': [3, 4, 2], 'src': [0, 2], 'dst': [1, 0]})
+        for c in cs:
+            c['kind'] = c['cls'] + '-sizes'
+        return cs
+
+    # ---- (b) tagged operators obtained through the public construction paths ----
+    def _derived_cases(self, quick):
+        C = lambda c: {'op': 'case', 'case': c}  # noqa: E731
+        U = lambda k, a: {'op': k, 'a': a}  # noqa: E731
+        B = lambda k, a, b: {'op': k, 'a': a, 'b': b}  # noqa: E731
+        cs = []
+
+        def add(expr, node=None, model=None, **kw):
+            c = {'cls': 'derived', 'expr': expr, 'what': expr_str(expr)}
+            if node:
+                c['node'], c['model'] = node, model
+            c.update(kw)
+            c['kind'] = 'derived-' + expr['op']
+            cs.append(c)
+
+        # bases: leaves of rank 0, 1, 2, several leaves of different ranks; tagged and untagged classes
+        ident = lambda st: {'cls': 'identity', 'shapes': st}  # noqa: E731
+        dg3 = {'cls': 'diagonal', 'values': ['2', '4', '-1'], 'dshape': [3], 'axis': -1, 'shapes': [[3]]}
+        dg23 = {'cls': 'diagonal', 'values': ['2', '-4', '1/2'], 'dshape': [3], 'axis': -1, 'shapes': [[2, 3], [3]]}
+        hw0 = {'cls': 'hwp', 'stokes': 'IQU', 'shape': []}
+        hw2 = {'cls': 'hwp', 'stokes': 'QU', 'shape': [2]}
+        rot = {'cls': 'qurot', 'stokes': 'IQU', 'shape': [2], 'ashape': [2], 'cs': [['0', '1'], ['3/5', '4/5']], 'trig': True}
+        rot0 = {'cls': 'qurot', 'stokes': 'QU', 'shape': [], 'ashape': [], 'cs': [['-4/5', '3/5']], 'trig': True}
+        tp = {'cls': 'toeplitz', 'xshape': [3], 'bshape': [2], 'band': ['2', '1/2'], 'method': 'direct'}
+        hm = {'cls': 'homothety', 'k': '4', 'shapes': [[3]]}
+        hm0 = {'cls': 'homothety', 'k': '-1/2', 'shapes': [[], [2]]}
+        dense = {'cls': 'dense', 'block': [[1, 2], [3, 4]]}
+        ma = {'cls': 'moveaxis', 'shape': [2, 3], 'src': [0], 'dst': [1]}
+        idx = {'cls': 'index', 'idx': [1, 0, 1], 'shape': [2]}
+        bases = [
+            (ident([[]]), [[]]), (ident([[3]]), [[3]]), (ident([[2, 2]]), [[2, 2]]), (ident([[2, 3], []]), [[2, 3], []]),
+            (hw0, [[], [], []]), (hw2, [[2], [2]]), (dg3, [[3]]), (dg23, [[2, 3], [3]]), (rot, [[2], [2], [2]]),
+            (rot0, [[], []]), (tp, [[3]]), (dense, [[2]]), (ma, [[3, 2]]), (idx, [[3]]),
+        ]
+        H = 'HomothetyOperator'
+
+        def scale_model(path, spec, st):
+            return {'kind': 'scale', 'path': path, 's': spec['v'], 'fshape': scalar_shape(spec), 'st': st}
+
+        # every scalar form x every path on a few bases; what is not a scalar on ALL bases (rejection is cheap,
+        # and each base has leaves of another rank for the factor to broadcast against)
+        vals = {'py_int': '2', 'py_float': '-1/2', 'py_bool': '1', 'np_f64': '4', 'np_i32': '-2', 'np0d': '1/4',
+                'jax0d': '-4', 'jax0d_f32': '2'}
+        for bi, (b, st) in enumerate(bases):
+            trig = bool(b.get('trig'))
+            for fi, form in enumerate(SCALAR_FORMS):
+                for pi, path in enumerate(('rmul', 'mul', 'div')):
+                    if quick and bi >= 4 and (bi + fi + pi) % 3:
+                        continue
+                    spec = {'form': form, 'v': vals[form]}
+                    add({'op': path, 's': spec, 'a': C(b)}, H, scale_model('SDiv' if path == 'div' else 'SMul', spec, st), trig=trig)
+            for form in ARRAY_FORMS:
+                for path in ('rmul', 'mul', 'div'):
+                    if form.startswith('np') and path != 'div':
+                        continue
+                    spec = {'form': form, 'v': '2'}
+                    add({'op': path, 's': spec, 'a': C(b)}, H, scale_model('SDiv' if path == 'div' else 'SMul', spec, st),
+                        trig=trig, not_scalar=True)
+            add(U('neg', C(b)), H, {'kind': 'scale', 'path': 'SNeg', 's': '1', 'fshape': [], 'st': st}, trig=trig)
+            add(U('pos', C(b)), trig=trig)
+        # differences, sums, negated sums
+        add(B('sub', C(dg3), C(ident([[3]]))), H, {'kind': 'scale', 'path': 'SNeg', 's': '1', 'fshape': [], 'st': [[3]]})
+        add(B('sub', C(hw0), C({'cls': 'identity_stokes', 'stokes': 'IQU', 'shape': []})))
+        add(U('neg', B('add', C(dg3), C(tp))), H, {'kind': 'scale', 'path': 'SNeg', 's': '1', 'fshape': [], 'st': [[3]]})
+        # merged scalars: at construction (HomothetyOperator.__matmul__) and by reduce() (HomothetyRule)
+        s2, s3 = {'form': 'py_int', 'v': '2'}, {'form': 'jax0d', 'v': '-1/2'}
+        for b, st, k in ((hm, [[3]], '4'), (hm0, [[], [2]], '-1/2')):
+            add({'op': 'rmul', 's': s2, 'a': C(b)}, H, {'kind': 'merged', 's': '2', 't': k, 'st': st})
+            add({'op': 'div', 's': s3, 'a': C(b)}, H, {'kind': 'merged', 's': '-2', 't': k, 'st': st})
+            add(U('I', {'op': 'rmul', 's': s2, 'a': C(b)}), H, {'kind': 'hinv', 's': str(2 * Fraction(k)), 'st': st})
+            add(U('I', C(b)), H, {'kind': 'hinv', 's': k, 'st': st})
+            add(U('I', U('I', C(b))), H, {'kind': 'merged', 's': '1', 't': k, 'st': st})
+            add(U('T', C(b)), H, {'kind': 'merged', 's': '1', 't': k, 'st': st})
+            add(B('matmul', C(b), C(b)), H, {'kind': 'merged', 's': k, 't': k, 'st': st})
+        for b, st in ((dense, [[2]]), (dg3, [[3]]), (hw0, [[], [], []]), (ident([[2, 3], []]), [[2, 3], []])):
+            inner = {'op': 'rmul', 's': s3, 'a': C(b)}
+            outer = {'op': 'mul', 's': s2, 'a': inner}
+            add(U('reduce', outer), H, {'kind': 'merged', 's': '2', 't': '-1/2', 'st': st})
+            add(U('reduce', B('matmul', outer, inner)), H, {'kind': 'merged', 's': '-1', 't': '-1/2', 'st': st})
+        # .T / .I (and twice) of every tagged class
+        dgi = dict(dg23, cls='diagonal_inverse')
+        rotT = dict(rot, cls='qurotT')
+        maT = {'cls': 'moveaxis', 'shape': [3, 2], 'src': [1], 'dst': [0]}
+        obs = {'cls': 'obs_matrix', 'r': 2, 'c': 2, 'rows': [0, 1, -1, 0]}
+        lz = {'cls': 'lazy_hwp', 'stokes': 'IQU', 'shape': [2]}
+        M = lambda c: {'kind': 'case', 'case': c}  # noqa: E731
+        N = CASE_CLASS
+        idm = ident([[2, 3], []])
+        hwl = {'cls': 'hwp', 'stokes': 'IQU', 'shape': [2]}
+        rot0T = dict(rot0, cls='qurotT')
+        # base, then the tagged operator expected in b.T, b.I, b.T.T, b.I.I, b.T.I (None: nothing to compare)
+        for b, t, i, tt, ii, ti in (
+            (idm, idm, idm, idm, idm, idm), (dg23, dg23, dgi, dg23, dg23, dgi), (dgi, dgi, dg23, dgi, dgi, dg23),
+            (hw2, hw2, hw2, hw2, hw2, hw2), (hw0, hw0, hw0, hw0, hw0, hw0), (tp, tp, tp, tp, tp, tp),
+            (rot, rotT, rotT, rot, rot, rot), (rotT, rot, rot, rotT, rotT, rotT), (rot0, rot0T, rot0T, rot0, rot0, rot0),
+            (ma, maT, maT, ma, ma, ma), (obs, None, obs, obs, obs, None), (lz, hwl, hwl, hwl, hwl, hwl),
+        ):
+            trig = bool(b.get('trig'))
+            for e, x in ((U('T', C(b)), t), (U('I', C(b)), i), (U('T', U('T', C(b))), tt), (U('I', U('I', C(b))), ii),
+                         (U('I', U('T', C(b))), ti)):
+                add(e, x and N[x['cls']], x and M(x), trig=trig)
+        add(U('I', {'op': 'block_diag', 'parts': [C(dg3), C(hm)]}), N['diagonal_inverse'], M(dict(dg3, cls='diagonal_inverse')))
+        add(U('T', {'op': 'block_diag', 'parts': [C(rot), C(hw2)]}), N['qurotT'], M(rotT), trig=True)
+        # reduce(): the multiplicity DiagonalOperator of P.T @ P, rotations, rotation @ HWP, inverses
+        for ind, shapes, counts in (([1, 0, 1], [[2]], ['1', '2']), ([2, 2, 0, 2, -1], [[3]], ['1', '0', '4']),
+                                    ([0, 3, 3], [[4, 2]], ['1', '0', '0', '2']), ([1, 1], [[2], [2]], ['0', '2'])):
+            P = {'cls': 'index', 'idx': ind, 'shapes': shapes}
+            add(U('reduce', B('matmul', U('T', C(P)), C(P))), N['diagonal'],
+                M({'cls': 'diagonal', 'values': counts, 'dshape': [len(counts)], 'axis': 0, 'shapes': shapes}))
+        ra = {'cls': 'qurot', 'stokes': 'IQU', 'shape': [2], 'ashape': [2], 'cs': [['3/5', '4/5'], ['0', '1']], 'trig': True}
+        rb = {'cls': 'qurot', 'stokes': 'IQU', 'shape': [2], 'ashape': [1], 'cs': [['5/13', '-12/13']], 'trig': True}
+
+        def compose(a, b, sa, sb):  # (cos, sin) of 2(sa*alpha + sb*beta) per pixel
+            out = []
+            for t in range(2):
+                c1, s1 = Fraction(a['cs'][t][0]), sa * Fraction(a['cs'][t][1])
+                c2, s2 = Fraction(b['cs'][0][0]), sb * Fraction(b['cs'][0][1])
+                out.append([str(c1 * c2 - s1 * s2), str(s1 * c2 + c1 * s2)])
+            return dict(a, cs=out, ashape=[2])
+
+        add(U('reduce', B('matmul', C(ra), C(rb))), N['qurot'], M(compose(ra, rb, 1, 1)), trig=True)
+        add(U('reduce', B('matmul', C(ra), U('T', C(rb)))), N['qurot'], M(compose(ra, rb, 1, -1)), trig=True)
+        add(U('reduce', B('matmul', U('T', C(ra)), C(rb))), N['qurot'], M(compose(ra, rb, -1, 1)), trig=True)
+        add(U('reduce', B('matmul', U('T', C(ra)), U('T', C(rb)))), N['qurot'], M(compose(ra, rb, -1, -1)), trig=True)
+        hw = {'cls': 'hwp', 'stokes': 'IQU', 'shape': [2]}
+        add(U('reduce', B('matmul', C(ra), C(hw))), N['qurotT'], M(dict(ra, cls='qurotT')), trig=True)
+        add(U('reduce', B('matmul', U('T', C(ra)), C(hw))), N['qurot'], M(ra), trig=True)
+        hc = {'cls': 'hwp_create', 'stokes': 'IQU', 'shape': [2], 'ashape': [2], 'cs': ra['cs']}
+        add(C(hc), N['hwp'], M(hw), trig=True)
+        add(U('reduce', C(hc)), N['hwp'], M(hw), trig=True)
+        add(U('T', C(hc)), N['qurotT'], M(dict(ra, cls='qurotT')), trig=True)
+        add(U('reduce', B('matmul', C(dg3), U('I', C(dg3)))), N['identity'], M(ident([[3]])))
+        add(B('matmul', U('I', C(dg3)), C(dg3)), N['identity'], M(ident([[3]])))
+        add(U('reduce', B('matmul', C(ma), U('T', C(ma)))), N['identity'], M(ident([[3, 2]])))
+        add(U('reduce', B('matmul', U('I', C(tp)), C(tp))), N['identity'], M(ident([[3]])))
         return cs
 
     def rule(self):
@@ -566,12 +936,20 @@ class Check(PropertyCheck):
             'Stokes I/QU/IQU/IQUV), values in {0, +-1, +-1/2, ...} (dyadic), rotation angles k*pi/4 and Pythagorean '
             'pairs (3/5,4/5)..., band/angle/diagonal arrays of every broadcastable shape, malformed (wider) diagonal '
             'values and non-square observation matrices, wider Toeplitz/rotation parameters (boundary), and one or '
-            'more instances of every class that declares nothing; distinct by canonical JSON. Non-trivial: the '
+            'more instances of every class that declares nothing; SymmetricBandToeplitzOperator for every n in 1..24 x '
+            'K in 1..n+2 x method (dense on a third of them in the quick tier, direct, fft, overlap_save with the default '
+            'and 2 [quick] / all of {2K-1, 2K, 2K+1, 2K+3, default/2, 2 default, default+3} explicit fft sizes); a range '
+            'of sizes for the other tagged classes; derived: expressions over those bases through the public '
+            'construction paths (s*A, A*s, A/s with 8 scalar and 10 non-scalar factor forms, -A, +A, A-B, -(A+B), .T, .I, '
+            '.T.T, .I.I, .T.I, A@B, block diagonals, reduce() of P.T@P / scaled / rotation / HWP / inverse products, '
+            'HWPOperator.create), every tagged operator in the result being observed; distinct by canonical JSON. Non-trivial: the '
             'class declares at least one query, or the instance belongs to an untagged class whose matrix has a '
             'property it could have been tagged with.'
         )
 
     def nontrivial(self, case, obs):
+        if isinstance(obs, dict) and case['cls'] == 'derived':
+            return obs.get('ctor') != 'ok' or bool(obs.get('nodes'))
         return isinstance(obs, dict) and (any(obs.get('row') or []) or obs.get('ctor') not in (None, 'ok') or case.get('untagged'))
 
     # ------------------------------------------------------------------------------------ impl side
@@ -579,18 +957,34 @@ class Check(PropertyCheck):
         return observe(case)
 
     def comparable(self, case, obs):
+        if case['cls'] == 'derived':
+            if obs.get('ctor') != 'ok':
+                # (whatever refuses a factor that is not a scalar - furax's ValueError, Python's TypeError for a list)
+                return {'ctor': 'ValueError' if case.get('not_scalar') and obs.get('ctor') in ('ValueError', 'TypeError') else obs.get('ctor')}
+            node = next((n for n in obs['nodes'] if n.get('class') == case['node']), None)
+            if node is None:
+                return {'ctor': 'ok', 'missing': f'no {case["node"]} in the result', 'classes': [n.get('class') for n in obs['nodes']]}
+            like = dict(case['model']['case']) if case['model']['kind'] == 'case' else {'cls': 'homothety'}
+            if case.get('trig'):
+                like['trig'] = True
+            like['no_as_matrix'] = True
+            return self.comparable(like, node)
         if obs.get('ctor') != 'ok':
             return {'ctor': obs.get('ctor')}
         out = {'ctor': 'ok', 'in': obs['in'], 'out': obs['out_traced'] if not isinstance(obs['out_traced'], dict) else None}
         if case['cls'] == 'moveaxis':  # not square: the model has no structures for it (C13)
             out = {'ctor': 'ok'}
         if 'matrix' in obs:
-            # FFT-based Toeplitz methods round: the exact matrix of those cases is as_matrix()
-            out['matrix'] = self._snap(case, obs['as_matrix'] if case.get('fft') else obs['matrix'])
+            # FFT-based Toeplitz methods round: entries snapped to the grid of the band values (eighths) within 1e-9
+            out['matrix'] = self._snap(case, obs['matrix'])
+            if case['cls'] == 'toeplitz' and not case.get('no_as_matrix') and not isinstance(obs.get('as_matrix'), dict):
+                out['as_matrix'] = obs['as_matrix']
         return lib.canon(out)
 
     def _snap(self, case, rows):
-        """Entries that went through cos/sin or linalg.inv: snapped to the grid of the model's rationals."""
+        """Entries that went through cos/sin, an FFT or linalg.inv: snapped to the grid of the model's rationals."""
+        if case.get('fft'):
+            return [[self._snap1(v, 8) for v in r] for r in rows]
         if not case.get('trig'):
             if case['cls'] in ('qurot', 'qurotT', 'lazy_qurot'):
                 return [[self._snap1(v, 1) for v in r] for r in rows]
@@ -608,6 +1002,21 @@ class Check(PropertyCheck):
         k = case['cls']
         if case.get('untagged') or case['cls'] == 'toy':
             return None
+        if k == 'derived':
+            mo = case.get('model')
+            if not mo:
+                return None
+            Qd = lambda v: cq(Fraction(v))  # noqa: E731
+            std = lambda ss: clist(ss, lambda x: clist(x, cz))  # noqa: E731
+            if mo['kind'] == 'case':
+                return self.model_term(mo['case'])
+            if mo['kind'] == 'scale':
+                return f'o_scale {mo["path"]} {Qd(mo["s"])} {clist(mo["fshape"], cz)} {std(mo["st"])}'
+            if mo['kind'] == 'merged':
+                return f'o_homothety_merged {Qd(mo["s"])} {Qd(mo["t"])} {std(mo["st"])}'
+            if mo['kind'] == 'hinv':
+                return f'o_homothety_inverse {Qd(mo["s"])} {std(mo["st"])}'
+            raise ValueError(mo['kind'])
         Q = lambda v: cq(Fraction(v))  # noqa: E731
         sh = lambda s: clist(s, cz)  # noqa: E731
         st = lambda ss: clist(ss, sh)  # noqa: E731
@@ -616,7 +1025,7 @@ class Check(PropertyCheck):
         elif k == 'identity_stokes':
             t = f'o_identity {st([case["shape"]] * len(case["stokes"]))}'
         elif k == 'homothety':
-            t = f'o_homothety {Q(case["k"])} {st(case["shapes"])}'
+            t = f'o_homothety {Q(case["k"])} [] {st(case["shapes"])}'
         elif k in ('diagonal', 'diagonal_inverse'):
             vals, leaves = self._diag_model(case)
             leaves_t = clist(leaves, lambda l: f'({sh(l[0])}, {sh(l[1])}, {sh(l[2])})')
@@ -744,6 +1153,18 @@ class Check(PropertyCheck):
                 return o['a'][0]
             return o
 
+        if case['cls'] == 'derived':
+            mo = case['model']
+            if mo['kind'] == 'case':
+                like = dict(mo['case'])
+                like['no_as_matrix'] = True
+                return self.decode(like, v)
+            if mo['kind'] == 'scale':
+                if v is None or v == 'None' or (isinstance(v, dict) and v.get('c') == 'None'):
+                    return {'ctor': 'ValueError'}
+                v = opt(v)
+            m, i, o = v
+            return {'ctor': 'ok', 'in': i, 'out': opt(o), 'matrix': rows(m)}
         if case.get('malformed'):
             name = v['c'] if isinstance(v, dict) else str(v)
             return {'ctor': {'CtorOk': 'ok', 'CtorValueError': 'ValueError'}.get(name, name)}
@@ -754,12 +1175,42 @@ class Check(PropertyCheck):
             i, o = v
             return {'ctor': 'ok', 'in': i, 'out': opt(o)}
         m, i, o = v
-        return {'ctor': 'ok', 'in': i, 'out': opt(o), 'matrix': rows(m)}
+        out = {'ctor': 'ok', 'in': i, 'out': opt(o), 'matrix': rows(m)}
+        if case['cls'] == 'toeplitz' and not case.get('no_as_matrix'):
+            out['as_matrix'] = rows(m)
+        return out
 
     # -------------------------------------------------------------------------------------- oracle
     def oracle(self, case, obs):
         if not isinstance(obs, dict):
             return f'unexpected observation {obs!r}'
+        if case['cls'] == 'derived':
+            return self._oracle_derived(case, obs)
+        return self._oracle_op(case, obs)
+
+    def _oracle_derived(self, case, obs):
+        """Everything tagged in what a public construction path returns is judged like a direct instance."""
+        what = case.get('what', 'expression')
+        if obs.get('ctor') != 'ok':
+            if case.get('not_scalar'):
+                return None  # a factor that is not a scalar was refused (the kind of refusal is compared with the model)
+            return f'{what}: raised {obs["ctor"]} on legal operands'
+        msgs = []
+        res = obs['result']
+        flags = {'cls': 'derived', 'trig': case.get('trig')}
+        m0 = self._oracle_op(dict(flags, nomatrix=True), res)
+        if m0:
+            msgs.append(f'result {res.get("class")}: {m0}')
+        if not isinstance(res.get('out_traced'), dict) and res.get('out_declared') != res.get('out_traced'):
+            msgs.append(f'result {res.get("class")}: out_structure() is {res.get("out_declared")} but mv returns {res.get("out_traced")} '
+                        f'for an input of structure in_structure() = {res.get("in")}')
+        for k, n in enumerate(obs['nodes']):
+            mk = self._oracle_op(flags, n)
+            if mk:
+                msgs.append(f'operator #{k} ({n.get("class")}) of the result: {mk}')
+        return f'{what}: ' + '; '.join(msgs) if msgs else None
+
+    def _oracle_op(self, case, obs):
         if obs.get('ctor') != 'ok':
             if case.get('malformed'):
                 return None if obs['ctor'] == 'ValueError' else f'malformed parameters: constructor outcome {obs["ctor"]}, expected ValueError'
@@ -795,12 +1246,15 @@ class Check(PropertyCheck):
         if 'matrix_error' in obs:
             msgs.append(f'mv raises {obs["matrix_error"]["error"]} on a basis vector of in_structure()')
         if 'matrix' in obs:
-            tol = TOL if (case.get('trig') or case.get('fft') or case['cls'] in ('qurot', 'qurotT', 'lazy_qurot')) else 0.0
+            name = obs.get('class')
+            rot = case['cls'] in ('qurot', 'qurotT', 'lazy_qurot') or name in ('QURotationOperator', 'QURotationTransposeOperator')
+            tol = TOL if (case.get('trig') or case.get('fft') or rot) else 0.0
+            lazy = 'lazy' in case['cls'] or case['cls'] == 'qurotT' or name in ('QURotationTransposeOperator', 'AbstractLazyInverseOrthogonalOperator')
             M = tofloat(obs['matrix'])
             msgs += check_matrix('matrix of mv', M, row, tol)
             if not isinstance(obs['as_matrix'], dict):
                 A = tofloat(obs['as_matrix'])
-                msgs += check_matrix('as_matrix()', A, row, max(tol, TOL if 'lazy' in case['cls'] or case['cls'] == 'qurotT' else 0.0))
+                msgs += check_matrix('as_matrix()', A, row, max(tol, TOL if lazy else 0.0))
             if row[8] and 'I_matrix' in obs:
                 import numpy as np
 
